@@ -255,6 +255,7 @@ let run_as_gm (suite : string) (attack : string) (cfgs : string) : string =
     | "skx_sr", IHs (MServerKeyExchange _) -> skx (TSig (k_sig, skx_payload cr_t (TRand (n 99)) c_enc))
     | "skx_enc2", IHs (MServerKeyExchange _) -> skx (TSig (k_sig, skx_payload cr_t sr_t c_sig))
     | "skx_key2", IHs (MServerKeyExchange _) -> skx (TSig (k_auth, skx_payload cr_t sr_t c_enc))
+    | "skx_enckey", IHs (MServerKeyExchange _) -> skx (TSig (k_enc, skx_payload cr_t sr_t c_enc))   (* the holder of the ENCRYPTION key signs *)
     | "skx_omit", IHs (MServerKeyExchange _) -> []
     | "skx_junk", IHs (MServerKeyExchange _) -> skx (TJunk (n 7))
     | "skx_len", IHs (MServerKeyExchange (_, p, sg)) -> [IHs (MServerKeyExchange (false, p, sg))]
@@ -394,7 +395,17 @@ let run_av (suite : string) (vf : string) (auth : string) (cc : string) : string
 
 (* AH: two connections of one client configuration; the models have no state shared between connections, so the second
    connection is judged on its own *)
-let run_ah (suite : string) (scenario : string) : string =
+let rec run_ah (suite : string) (scenario : string) : string =
+  if String.length scenario > 5 && String.sub scenario 0 5 = "cache" then run_ah_cache suite scenario else run_ah_ca suite scenario
+(* three connections sharing a session cache: the first full, the second resumed; the third asks for a name - the models
+   have no cache keyed by name: a session is offered only for the identity it was established with, so the third is a
+   full handshake judged on its own: the certificate is not valid for the other name *)
+and run_ah_cache (suite : string) (scenario : string) : string =
+  let cfgs = "cc=0,cr=0" in
+  let ok1 = run_as_tls suite "honest" cfgs in
+  if scenario = "cache_same" then Printf.sprintf "%s %s %s 1 1" ok1 ok1 ok1
+  else Printf.sprintf "%s %s %s 1 0" ok1 ok1 (run_as_tls suite "wrongname" cfgs)
+and run_ah_ca (suite : string) (scenario : string) : string =
   let cfgs = "cc=0,cr=0" in
   let (a1, a2) = match scenario with
     | "ca_inject" -> ("skx_junk", "untrusted")
@@ -484,7 +495,19 @@ let msg_name_s2c (o : output) : string = match o with
   | OHs (MFinished _) -> "FIN" | _ -> "?"
 
 (* one flight "A+B|C|D" over the attacker's outputs -> records; names without a message are skipped *)
-let pack_flight (name_of : output -> string) (outs : output list) (flight : string) : record list =
+let protect_plus (s : string) : string =
+  (* the tokens CKXL+1 / CKXH+1 contain the coalescing sign *)
+  let b = Buffer.create (String.length s) in
+  let n = String.length s in
+  let i = ref 0 in
+  while !i < n do
+    if !i + 6 <= n && (String.sub s !i 6 = "CKXL+1" || String.sub s !i 6 = "CKXH+1")
+    then (Buffer.add_string b (String.sub s !i 4); Buffer.add_string b "p1"; i := !i + 6)
+    else (Buffer.add_char b s.[!i]; incr i)
+  done; Buffer.contents b
+
+let pack_flight (name_of : output -> string) (outs : output list) (flight0 : string) : record list =
+  let flight = protect_plus flight0 in
   let find nm = List.find_opt (fun o -> name_of o = nm) outs in
   List.concat_map (fun recs ->
       let names = String.split_on_char '+' recs in
@@ -492,7 +515,18 @@ let pack_flight (name_of : output -> string) (outs : output list) (flight : stri
       else if names = ["HR"] then [RHs [HMsg MHelloRequest]]        (* a HelloRequest in a handshake record of its own *)
       else if names = ["HX"] then [RHs [HUnknown]]                  (* a handshake record with an unknown message type *)
       else
-        let items = List.concat_map (fun nm -> match find nm with Some (OHs m) -> [HMsg m] | _ -> []) names in
+        let ckx_variant nm =
+          (* CKXT<n>: trailing bytes the inner length does not cover; CKXL+1 / CKXL-1: inner length off by one: the length
+             logic refuses.  CKXH+1: one more byte with BOTH lengths one longer - consistent length fields; the SM2
+             ciphertext decoding (sm2.CipherUnmarshal, encoding/asn1) ignores what follows the ASN.1 structure, so this
+             is the same ciphertext to the key agreement (observation; the decoder's leniency belongs to C02 / C18) *)
+          match find "CKX" with
+          | Some (OHs (MClientKeyExchange (_, ct))) ->
+            if nm = "CKXHp1" then [HMsg (MClientKeyExchange (true, ct))] else [HMsg (MClientKeyExchange (false, ct))]
+          | _ -> [] in
+        let items = List.concat_map (fun nm ->
+            if String.length nm > 3 && String.sub nm 0 3 = "CKX" then ckx_variant nm
+            else match find nm with Some (OHs m) -> [HMsg m] | _ -> []) names in
         if items = [] then [] else [RHs items])
     (String.split_on_char '|' flight)
 
@@ -704,6 +738,7 @@ let handle (f : string array) : string =
   | "H" -> run_pair f.(2) f.(3)
   | "V" -> run_vgate f.(2) f.(3) f.(4)
   | "VC" -> run_vgate_c f.(2) f.(3) f.(4) f.(5)
+  | "VG" -> run_vgate f.(2) f.(3) f.(4)       (* callbacks that return nil do not change the gate *)
   | "R" -> run_r f.(2) f.(3) f.(4) f.(5) f.(6)
   | "AN" -> run_an f.(2) f.(4) f.(5)
   | "AS" -> run_as f.(2) f.(3) f.(4)
